@@ -27,6 +27,8 @@ class _SelfChecks(object):
         self.items = []
 
     def add(self, good_trace, corrupt, family):
+        if good_trace is None:      # no accepted sample of this family (only possible next to violations, see run())
+            return
         good = copy.deepcopy(good_trace)
         bad = corrupt(copy.deepcopy(good_trace))
         n = len(self.items)
@@ -35,6 +37,8 @@ class _SelfChecks(object):
         self.items.append((family, good, bad))
 
     def run(self, ctx, module):
+        if not self.items:
+            return
         traces = [t for _, g, b in self.items for t in (g, b)]
         v, st = tlc.validate_traces(module, traces, shards=8)
         for family, g, b in self.items:
@@ -100,6 +104,9 @@ def run(ctx):
     ctx.mc("DerValueMC", "DerValueMC_ints_quick.cfg" if quick else "DerValueMC_ints.cfg", workers=8, timeout=1500)
     ctx.mc("PaddingMC", "PaddingMC_quick.cfg" if quick else "PaddingMC_thorough.cfg", workers=8, timeout=1500)
     ctx.exhaustive = True
+    ctx.extra["exhaustive_over"] = ("the string universes of DerMC and PaddingMC and the value universes of DerValueMC (model checking and, for the "
+                                    "strings and the integers, the real decoders/encoders); mutations of real key files are a seeded sample in "
+                                    "the quick tier and all single-element mutations in the thorough tier")
 
     # ---------------------------------------------------------------------------------------------------------
     # 2. code -> spec: every recorded outcome is judged by TLC
@@ -207,7 +214,7 @@ def run(ctx):
         return next((t for t in ts if vs[t["tid"]][1] == "ok" and pred(t)), None)
     e0 = first(low, v_low, lambda t: t["kind"] == "enc" and t["d"]["cls"] == "DerSequence" and len(t["v"]["m"]) == 3)
     d0 = first(low, v_low, lambda t: t["kind"] == "dec" and t["out"] == "ValueError" and t["mut"] == "len-nonminimal")
-    d1 = first(low, v_low, lambda t: t["kind"] == "dec" and t["out"] == "ok" and t["mut"] not in ("unmodified",))
+    d1 = first(low, v_low, lambda t: t["kind"] == "dec" and t["out"] == "ok" and (t["d"]["cls"] == "DerOctetString" or (t["d"]["cls"] == "DerBitString" and t["v"]["bits"])))   # no tolerance applies
     u0 = first(misc, v_misc, lambda t: t["kind"] == "unpad" and t["out"] == "ok" and t["bs"] == 16 and len(t["v"]) > 2)
     u1 = first(misc, v_misc, lambda t: t["kind"] == "unpad" and t["out"] == "ValueError" and t["bs"] == 16)
     p0 = first(misc, v_misc, lambda t: t["kind"] == "pemenc" and not t["enc"] and len(t["data"]) > 48)
@@ -215,18 +222,24 @@ def run(ctx):
     k0 = first(keys, v_keys, lambda t: t["entry"] == "PKCS8.unwrap" and not t["pass"] and t["out"] == "ok" and t["mut"] == "unmodified")
     k1 = first(keys, v_keys, lambda t: t["entry"] == "RSA.import_key" and t["mut"] == "len-nonminimal" and t["strictable"] and t["out"] == "ValueError")
     k2 = first(keys, v_keys, lambda t: t["entry"] == "PEM.decode" and t["out"] == "ok" and t["mut"] == "pem-valid")
+    # a sample can only be missing because the library misbehaves on that family; then the violations are the result
     for name, t in (("enc", e0), ("dec-rejected", d0), ("dec-accepted", d1), ("unpad-ok", u0), ("unpad-rejected", u1), ("pemenc", p0),
                     ("wrap", w0), ("unwrap", k0), ("key-strict", k1), ("pem-decode", k2)):
-        if t is None:
+        if t is None and not ctx.violations:
             raise Machinery("no accepted sample trace of family %s" % name)
-    ctx.sample({"family": "der-encode", "decoder": e0["d"], "value": e0["v"], "encoding": _hex(e0["enc"]), "tlc_verdict": "ok"}, cap=12)
-    ctx.sample({"family": "der-decode", "decoder": d0["d"], "mutation": d0["mut"], "input": _hex(d0["s"]), "real_outcome": d0["out"], "tlc_verdict": "ok"}, cap=12)
-    ctx.sample({"family": "der-decode", "decoder": d1["d"], "mutation": d1["mut"], "input": _hex(d1["s"]), "real_outcome": d1["out"], "value": d1["v"], "tlc_verdict": "ok"}, cap=12)
-    ctx.sample({"family": "unpad", "style": u1["style"], "block_size": 16, "input": _hex(u1["s"]), "real_outcome": u1["out"], "tlc_verdict": "ok"}, cap=12)
-    ctx.sample({"family": "key-file", "entry": k1["entry"], "format": k1["fmt"], "mutation": k1["mut"], "path": k1["path"],
-                "real_outcome": k1["out"], "tlc_verdict": "ok"}, cap=12)
-    ctx.sample({"family": "key-file", "entry": k0["entry"], "format": k0["fmt"], "mutation": k0["mut"], "real_outcome": k0["out"],
-                "oid_arcs": k0["v"]["arcs"], "tlc_verdict": "ok"}, cap=12)
+
+    def sample(t, f):
+        if t is not None:
+            ctx.sample(f(t), cap=12)
+    sample(e0, lambda t: {"family": "der-encode", "decoder": t["d"], "value": t["v"], "encoding": _hex(t["enc"]), "tlc_verdict": "ok"})
+    sample(d0, lambda t: {"family": "der-decode", "decoder": t["d"], "mutation": t["mut"], "input": _hex(t["s"]), "real_outcome": t["out"], "tlc_verdict": "ok"})
+    sample(d1, lambda t: {"family": "der-decode", "decoder": t["d"], "mutation": t["mut"], "input": _hex(t["s"]), "real_outcome": t["out"],
+                          "value": t["v"], "tlc_verdict": "ok"})
+    sample(u1, lambda t: {"family": "unpad", "style": t["style"], "block_size": 16, "input": _hex(t["s"]), "real_outcome": t["out"], "tlc_verdict": "ok"})
+    sample(k1, lambda t: {"family": "key-file", "entry": t["entry"], "format": t["fmt"], "mutation": t["mut"], "path": t["path"],
+                          "real_outcome": t["out"], "tlc_verdict": "ok"})
+    sample(k0, lambda t: {"family": "key-file", "entry": t["entry"], "format": t["fmt"], "mutation": t["mut"], "real_outcome": t["out"],
+                          "oid_arcs": t["v"]["arcs"], "tlc_verdict": "ok"})
 
     # ---------------------------------------------------------------------------------------------------------
     # 3. binding self-checks: a falsified record must be rejected by the judge
@@ -234,7 +247,9 @@ def run(ctx):
     sc = ctx.drive("c13_codec", ["sweep"], inp={"decoders": [d for d in decoders if d["cls"] == "DerBoolean" and d["exp"] < 0],
                                                  "alphabet": [0, 1, 2, 127, 129, 255], "maxlen": 4, "tid0": 900000})
     vsc, _ = tlc.validate_traces("CodecTrace", sc, shards=2)
-    ok_sweep = next(t for t in sc if vsc[t["tid"]][1] == "ok" and len(t["acc"]) >= 2)
+    ok_sweep = next((t for t in sc if vsc[t["tid"]][1] == "ok" and len(t["acc"]) >= 2), None)
+    if ok_sweep is None and not ctx.violations:
+        raise Machinery("no accepted sample sweep record")
 
     def drop_accepted(t):
         del t["acc"][0]
